@@ -25,7 +25,7 @@
 const char *target_name = "pump";
 
 enum { L_BUFFER_FULL, L_EOF_WITH_DATA, L_HARD_ERROR_BUFFERED, L_SPLICE, L_READWRITE, L_RELAY_EOF, L_SHORT_IO, L_EAGAIN_INJ, L_EINTR_INJ,
-       L_DESTROY_MIDSTREAM, L_SECOND_PUMP, L_DONE, L_FREE_MODE, L_SOCK_IN, L_SOCK_OUT, L_PEER_GONE, L_BIG, L_BACKPRESSURE, L_EOF_RELAYED, L_EMPTY_STREAM };
+       L_DESTROY_MIDSTREAM, L_SECOND_PUMP, L_DONE, L_FREE_MODE, L_SOCK_IN, L_SOCK_OUT, L_PEER_GONE, L_BIG, L_BACKPRESSURE, L_EOF_RELAYED, L_EMPTY_STREAM, L_CROWD, L_CROWD_OVER_CACHE };
 
 ssize_t __real_read(int, void *, size_t);
 ssize_t __real_write(int, const void *, size_t);
@@ -308,6 +308,55 @@ static void run_session(void)
 	vz_count(0, ps.calls);
 }
 
+/* ------------------------------------------------------------------ a crowd of pumps in one thread
+ * Many connections of one thread are back-pressured at the same time and then drain: more relay buffers become idle at once
+ * than the per-thread cache keeps (the sessions that follow take their buffers from that cache). */
+struct crowd { struct iv_fd_pump *ip; int in[2], out[2]; int pin, pout; long fill; };
+static void crowd_bands(void *cookie, int pi, int po) { struct crowd *c = cookie; c->pin = pi; c->pout = po; }
+static void run_crowd(void)
+{
+	static struct crowd cr[32];
+	int n = 17 + ch_n(10), len = 1 + ch_n(3000), backwards = ch_n(2);
+	vz_label(L_CROWD); if (n > 20) vz_label(L_CROWD_OVER_CACHE);
+	vz_log("crowd: %d pumps blocked with %d bytes each, then drained %s", n, len, backwards ? "last to first" : "first to last");
+	vz_hash_u(0x5000 + n); vz_hash_u(len);
+	static unsigned char tmp[8192];
+	for (int i = 0; i < n; i++) {
+		struct crowd *c = &cr[i];
+		if (pipe(c->in) < 0 || pipe(c->out) < 0) vz_inconclusive("pipe");
+		fcntl(c->out[1], F_SETPIPE_SZ, 4096);
+		nb(c->in[0]); nb(c->in[1]); nb(c->out[0]); nb(c->out[1]);
+		c->fill = 0; memset(tmp, 0xEE, sizeof tmp);
+		for (;;) { ssize_t w = __real_write(c->out[1], tmp, sizeof tmp); if (w <= 0) break; c->fill += w; }     /* output blocked */
+		for (int k = 0; k < len; k++) tmp[k] = pat(k + i);
+		if (__real_write(c->in[1], tmp, len) != len) vz_inconclusive("crowd input");
+		c->ip = malloc(sizeof *c->ip); memset(c->ip, 0xA5, sizeof *c->ip);
+		IV_FD_PUMP_INIT(c->ip);
+		c->ip->from_fd = c->in[0]; c->ip->to_fd = c->out[1]; c->ip->cookie = c; c->ip->set_bands = crowd_bands; c->ip->flags = 0;
+		iv_fd_pump_init(c->ip);
+		int r = iv_fd_pump_pump(c->ip);
+		if (r != 1) FAIL("crowd-blocked-pump", "pump %d of %d (input readable, output blocked) returned %d, expected 1", i, n, r);
+		if (!c->pout) FAIL("crowd-bands", "pump %d of %d holds data for a blocked output but does not ask for the output band", i, n);
+	}
+	for (int j = 0; j < n; j++) {
+		struct crowd *c = &cr[backwards ? n - 1 - j : j];
+		long got = 0; for (;;) { ssize_t r = __real_read(c->out[0], tmp, sizeof tmp); if (r <= 0) break; got += r; }
+		if (got != c->fill) FAIL("crowd-fill", "output pipe held %ld filler bytes, %ld written", got, c->fill);
+		int r = iv_fd_pump_pump(c->ip);
+		if (r != 1) FAIL("crowd-drain-pump", "pump (input open, output writable again) returned %d, expected 1", r);
+		ssize_t rd = __real_read(c->out[0], tmp, sizeof tmp);
+		if (rd != len) FAIL("crowd-bytes", "%zd of %d buffered bytes arrived after the output became writable", rd, len);
+		else for (int k = 0; k < len; k++) if (tmp[k] != pat(k + (int)(c - cr))) { FAIL("crowd-bytes", "byte %d of the relayed data differs", k); break; }
+		if (!c->pin || c->pout) FAIL("crowd-bands", "drained pump asks for bands in=%d out=%d", c->pin, c->pout);
+	}
+	for (int i = 0; i < n; i++) {
+		struct crowd *c = &cr[i];
+		iv_fd_pump_destroy(c->ip);
+		memset(c->ip, 0x5A, sizeof *c->ip); free(c->ip);
+		close(c->in[0]); close(c->in[1]); close(c->out[0]); close(c->out[1]);
+	}
+}
+
 void target_run(void)
 {
 	signal(SIGPIPE, SIG_IGN);
@@ -318,6 +367,7 @@ void target_run(void)
 	vz_hash_u(no_splice);
 	rxcap = 0; (void)rxbuf;
 	iv_init();
+	if (ch_n(6) == 0) run_crowd();
 	int nsess = 1 + ch_n(3);
 	for (session_no = 0; session_no < nsess; session_no++) {
 		if (session_no) vz_label(L_SECOND_PUMP);
